@@ -197,6 +197,12 @@ pub fn lengths(n: usize) -> Vec<usize> {
     for l in [0, 1, n / 2, n.saturating_sub(1), n, n + 1, 2 * n] {
         s.insert(l);
     }
+    // several wraps around the domain (the coefficients fold modulo X^n - 1)
+    if n <= 1 << 12 {
+        for l in [2 * n + 1, 3 * n, 4 * n + 1] {
+            s.insert(l);
+        }
+    }
     s.into_iter().collect()
 }
 
@@ -510,6 +516,12 @@ fn len_class(len: usize, n: usize) -> String {
         "0".into()
     } else if len == 2 * n {
         "2n".into()
+    } else if len == 2 * n + 1 {
+        "2n+1".into()
+    } else if len == 3 * n {
+        "3n".into()
+    } else if len == 4 * n + 1 {
+        "4n+1".into()
     } else if len == n + 1 {
         "n+1".into()
     } else if len == n {
